@@ -62,6 +62,14 @@ def scope_tables():
         "def analysisEntries : List (String × String × String × String) := [\n  " + ",\n  ".join(q(e) for e in entries) + "]",
         "/-- calls of the functions that hold an entry without an enclosing enter_file (same shape) -/",
         "def analysisEntryCallers : List (String × String × String × String) := [\n  " + ",\n  ".join(q(e) for e in callers) + "]",
+        "/-- every SystemExit handler around a `with redirect_stderr(S)` that reads S back line by line: (try id, the message"
+        " family it filters out, what it does with the other lines (LINE = the loop variable), the call that replaces the filtered"
+        " ones) -/",
+        "def captureHandlers : List (String × String × String × String) := ["
+        + ", ".join(q((s["id"],) + tuple(s["shape"])) for s in scopes if s["kind"] == "try" and s.get("shape")) + "]",
+        "/-- every `with` that diverts stderr, with the innermost SystemExit-catching `try` whose body holds it (\"\" = none) -/",
+        "def captureScopes : List (String × String) := ["
+        + ", ".join(q((s["id"], s["enclosing_try"])) for s in scopes if s["verdict"] == "captures") + "]",
         "/-- does `enter_file` restore `current_file` when an exception leaves its block (yield guarded by try/finally)? -/",
         f"def enterFileRestoresOnException : Bool := {lbool(scopescan.enter_file_restores_on_exception())}",
     ]
